@@ -180,6 +180,16 @@ int main(int argc, char **argv) {
     int shard = args.i("shard", 0), nshards = args.i("nshards", 1);
     int l = args.i("l", 3), Bgbit = args.i("Bgbit", 7), lg = args.i("log2count", 26);
     int N = args.i("N", 1024);
+    // process history: another layout (and another ring degree) is decomposed first; the digest and the value stream of the
+    // layout under test start afterwards, so they stay comparable between builds
+    if (args.i("prelude", 0)) {
+        int l0 = l == 2 ? 3 : 2, bg0 = Bgbit == 8 ? 5 : 8;
+        rng.reseed(seed * 31 + 7);
+        { Decomp D0(N == 512 ? 1024 : 512, 1, l0, bg0); sweep(D0, 12, 0, 1); boundaries(D0); }
+        tlwe_wrapper(2, l0, bg0, 2);
+        digest = 0x243F6A8885A308D3ULL; n_formula_diff = 0;
+        out.cell("history:other-layout-decomposed-first-in-this-process");
+    }
     // identical value streams in every build: the PRNG depends only on (seed, layout, shard)
     rng.reseed(seed * 1000003ull + l * 101 + Bgbit * 7 + shard * 13);
     {
